@@ -206,6 +206,17 @@ theorem good_arrayOp (F : Facts15) [DeepCopy F] (fuel src : Nat) (member : Optio
     refine Good.bind (Good.updCls _ _ (Or.inl hr) (fun _ => ⟨rfl, rfl, rfl⟩)) (fun _ _ => ?_)
     exact Good.pure' _ hr
 
+theorem good_arraySA (F : Facts15) [DeepCopy F] (fuel src : Nat) (sa kw : Kw) (ca : Option (List (String × Kw)))
+    (caa : Option Kw) : Good n na T (arraySA F fuel src sa kw ca caa) (Fresh n) := by
+  unfold arraySA
+  refine Good.bind (Good.getCls _) (fun sc _ => ?_)
+  split
+  · refine Good.bind (good_customizeAny _ _ _ _) (fun m' _ => ?_)
+    refine Good.bind (good_custComplex _ _ _ _ _ _) (fun r1 hr => ?_)
+    refine Good.bind (good_setSerializer _ _ _ _ _ (Or.inl hr)) (fun _ _ => ?_)
+    exact good_custComplex _ _ _ _ _ _
+  · exact Good.fail _
+
 /-- Mandatory, with the rule that gives the *new* class the mandatory member -/
 structure GoodMand (F : Facts15) (n na : Nat) (T : List Nat) (fuel : Nat) : Prop where
   mandatory : ∀ src, Good n na T (mandatory F fuel src) (Fresh n)
